@@ -238,7 +238,7 @@ def _run_job(job, prop, hdir, wd, res):
         if not ok:
             return fail("legacy contract instrumentation failed")
     # 4. cbmc
-    flags = ["--json-ui", "--verbosity 8", "--unwinding-assertions", "--no-malloc-may-fail", "--max-field-sensitivity-array-size 256"]
+    flags = ["--json-ui", "--verbosity 8", "--unwinding-assertions", "--no-malloc-may-fail", "--max-field-sensitivity-array-size 320"]
     for c in job.no_checks:
         flags.append(f"--no-{c}-check")
     if job.unwind is not None:
